@@ -50,14 +50,18 @@ RULE = ("request stream = 0-4 frames (valid / undecodable / empty payload) + opt
         "random beyond; every chunk has an arrival time, the peer closes (or resets) at the end; handler strategies = "
         "action lists over {yield t (t in None,0,4,8 ticks), return, close+return, close+yield, raise} of length <= 6 "
         "(exhaustive for length <= 2 on short streams, random beyond), on_connection as coroutine / generator / closing "
-        "coroutine; max_recv_size in {1,2,3,64}.  Non-trivial = at least one generator restart with a request still to "
+        "coroutine; max_recv_size in {1,2,3,64}.  Then pairs of such connections (same protocol, independent peers/strategies, "
+        "shifted arrival times) are served CONCURRENTLY by one AsyncStreamServer with one request-handler object; each "
+        "connection's observables must equal the model's isolated run (independence).  "
+        "Non-trivial = at least one generator restart with a request still to "
         "come, or a parse error thrown, or a timeout thrown, or the handler closes the client before the stream ends.")
 TRUSTED = ["model of __client_coroutine / request receivers / ThrowAction / build_lowlevel_stream_server_handler "
            "hand-written in coq/Conc/StreamServer.v over the consumer models",
            "in-memory listener/transport with arrival times on the deterministic loop (harness/c15.py) stand for the peer",
            "asyncio task/cancel-scope semantics (backend.timeout, cancel_shielded_coro_yield) are not modelled beyond "
            "'TimeoutError iff the deadline passes while the receiver waits for the transport' — validated by execution"]
-ASSUMPTIONS = ["one connection at a time (independence of connections is C17's subject)",
+ASSUMPTIONS = ["the model is of ONE connection; independence of concurrent connections is checked by execution (pairs "
+               "served by one server must reproduce the isolated per-connection runs), not proved",
                "handler code takes no virtual time; it echoes each request unless the client is closed",
                "a handler never swallows GeneratorExit",
                "cancellation is only delivered while the transport waits with no data (C10 covers the data race)"]
@@ -70,8 +74,9 @@ class HandlerError(Exception):
 
 
 class PeerTransport(AsyncStreamTransport):
-    def __init__(self, peer, backend, loop):
+    def __init__(self, peer, backend, loop, port=2222):
         super().__init__()
+        self.port = port
         self.script = deque([list(x) for x in peer])
         self._backend = backend
         self._loop = loop
@@ -133,7 +138,7 @@ class PeerTransport(AsyncStreamTransport):
             INETSocketAttribute.socket: lambda: s,
             INETSocketAttribute.family: lambda: s.family,
             INETSocketAttribute.sockname: s.getsockname,
-            INETSocketAttribute.peername: s.getpeername,
+            INETSocketAttribute.peername: lambda: ("127.0.0.1", self.port),
         }
 
 
@@ -144,8 +149,8 @@ class MemListener(AsyncListener):
         self.transports = transports
         self._loop = loop
         self._closed = False
-        self.outcomes = []
-        self.end_times = []
+        self.outcomes = {}
+        self.end_times = {}
         self.done = asyncio.Event()
 
     async def serve(self, handler, task_group=None):
@@ -157,11 +162,11 @@ class MemListener(AsyncListener):
     async def _run(self, handler, tr):
         try:
             await handler(tr)
-            self.outcomes.append(None)
+            self.outcomes[tr.port] = None
         except Exception as exc:
-            self.outcomes.append(exc)
+            self.outcomes[tr.port] = exc
         finally:
-            self.end_times.append(self._loop.time())
+            self.end_times[tr.port] = self._loop.time()
             if len(self.end_times) == len(self.transports):
                 self.done.set()
 
@@ -193,49 +198,60 @@ def classify(exc):
     return [9, type(exc).__name__.encode()]
 
 
-class ScriptedHandler(AsyncStreamRequestHandler):
-    def __init__(self, acts, oc, loop):
+class _Conn:
+    def __init__(self, acts, oc):
         self.acts = deque(acts)
         self.oc = oc
-        self.loop = loop
         self.log = []
         self.counter = 0
+
+
+class ScriptedHandler(AsyncStreamRequestHandler):
+    """One handler object for the whole server; the strategy and the log are per connection (keyed by the peer port)."""
+
+    def __init__(self, conns, loop):
+        self.conns = conns          # port -> _Conn
+        self.loop = loop
 
     def now(self):
         return round(self.loop.time() / TICK)
 
-    def on_connection(self, client):
-        self.log.append([0])
-        if self.oc == 1:
-            return self._gen(client)
-        return self._on_conn(client)
+    def conn(self, client):
+        return self.conns[client.extra(INETSocketAttribute.peername)[1]]
 
-    async def _on_conn(self, client):
-        if self.oc == 2:
+    def on_connection(self, client):
+        cn = self.conn(client)
+        cn.log.append([0])
+        if cn.oc == 1:
+            return self._gen(client, cn)
+        return self._on_conn(client, cn)
+
+    async def _on_conn(self, client, cn):
+        if cn.oc == 2:
             await client.aclose()
 
     async def on_disconnection(self, client):
-        self.log.append([6])
+        self.conn(client).log.append([6])
 
     def handle(self, client):
-        return self._gen(client)
+        return self._gen(client, self.conn(client))
 
-    async def _gen(self, client):
-        g = self.counter
-        self.counter += 1
-        self.log.append([1, g])
+    async def _gen(self, client, cn):
+        g = cn.counter
+        cn.counter += 1
+        cn.log.append([1, g])
         thrown = None
         while True:
-            a = self.acts.popleft() if self.acts else [2]
+            a = cn.acts.popleft() if cn.acts else [2]
             if a[0] == 1:
-                self.log.append([4, g])
+                cn.log.append([4, g])
                 return
             if a[0] == 2:
                 await client.aclose()
-                self.log.append([4, g])
+                cn.log.append([4, g])
                 return
             if a[0] == 4:
-                self.log.append([4, g])
+                cn.log.append([4, g])
                 if thrown is not None:
                     raise thrown
                 raise HandlerError()
@@ -245,33 +261,38 @@ class ScriptedHandler(AsyncStreamRequestHandler):
             try:
                 req = yield t
             except GeneratorExit:
-                self.log.append([5, g])
+                cn.log.append([5, g])
                 raise
             except Exception as exc:
                 thrown = exc
-                self.log.append([3, g, classify(exc), self.now()])
+                cn.log.append([3, g, classify(exc), self.now()])
             else:
                 thrown = None
-                self.log.append([2, g, sc.canon_packet(req), self.now()])
+                cn.log.append([2, g, sc.canon_packet(req), self.now()])
                 if not client.is_closing():
                     await client.send_packet(req)
 
 
-async def _main(inp, loop):
+async def _main(conn_inputs, loop):
+    """conn_inputs: list of single-connection inputs sharing kind/cfg/bufsize/impl (one server, one protocol)"""
     from easynetwork.lowlevel.api_async.backend.utils import new_builtin_backend
     from easynetwork.lowlevel.api_async.servers.stream import AsyncStreamServer
     from easynetwork.lowlevel.socket import new_socket_address
     from easynetwork.servers.async_tcp import _ConnectedClientAPI
     from easynetwork.servers.misc import build_lowlevel_stream_server_handler
 
-    kind, cfg, _dec, peer, acts, oc, bufsize, impl = inp[:8]
+    kind, cfg, _dec, _peer, _acts, _oc, bufsize, impl = conn_inputs[0][:8]
     ser = sc.make_serializer(kind, cfg, impl)
     protocol = BufferedStreamProtocol(ser) if kind in (1, 3) else StreamProtocol(ser)
     backend = new_builtin_backend("asyncio")
-    tr = PeerTransport(peer, backend, loop)
-    listener = MemListener(backend, [tr], loop)
+    transports, conns = [], {}
+    for i, ci in enumerate(conn_inputs):
+        port = 2222 + i
+        transports.append(PeerTransport(ci[3], backend, loop, port))
+        conns[port] = _Conn(ci[4], ci[5])
+    listener = MemListener(backend, transports, loop)
     server = AsyncStreamServer(listener, protocol, max_recv_size=bufsize)
-    rh = ScriptedHandler(acts, oc, loop)
+    rh = ScriptedHandler(conns, loop)
 
     @contextlib.asynccontextmanager
     async def initializer(lowlevel_client):
@@ -290,17 +311,22 @@ async def _main(inp, loop):
     serve_task.cancel()
     await asyncio.gather(serve_task, return_exceptions=True)
     seplen = len(cfg[0]) if kind in (0, 1) else 0
-    wire = [d[: len(d) - seplen] if seplen else d for d in tr.sent]
-    exc = listener.outcomes[0]
-    return [rh.log, wire, [] if exc is None else [classify(exc)], tr.is_closing(), len(tr.script),
-            round(listener.end_times[0] / TICK)]
+    outs = []
+    for tr in transports:
+        wire = [d[: len(d) - seplen] if seplen else d for d in tr.sent]
+        exc = listener.outcomes[tr.port]
+        outs.append([conns[tr.port].log, wire, [] if exc is None else [classify(exc)], tr.is_closing(), len(tr.script),
+                     round(listener.end_times[tr.port] / TICK)])
+    return outs
 
 
 def run_impl(inp):
     with warnings.catch_warnings():
         warnings.simplefilter("ignore")
-        with detloop.running(max_steps=20000) as loop:
-            return loop.run_until_complete(_main(inp, loop))
+        with detloop.running(max_steps=40000) as loop:
+            if inp[0] == 100:
+                return loop.run_until_complete(_main([inp[1], inp[2]], loop))
+            return loop.run_until_complete(_main([inp], loop))[0]
 
 
 # ---------------------------------------------------------------- cases
@@ -358,7 +384,7 @@ def random_acts(rng, n):
     return out
 
 
-def cases(tier, rng, escalate):
+def _single_cases(tier, rng, escalate):
     thorough = tier == "thorough" or escalate
     max_all = 5 if thorough else 4
     for fr in FRAMINGS:
@@ -412,9 +438,60 @@ def cases(tier, rng, escalate):
                                                                          or "finite-timeouts" in tags)))
 
 
+def _span(peer):
+    times = [it[-1] for it in peer]
+    return (min(times), max(times)) if times else (0, 0)
+
+
+def cases(tier, rng, escalate):
+    """single connections, then pairs of connections served concurrently by one server (same protocol and
+    max_recv_size, independent peers and handler strategies)"""
+    thorough = tier == "thorough" or escalate
+    buckets = {}
+    for c in _single_cases(tier, rng, escalate):
+        yield c
+        inp = c["input"]
+        key = (inp[0], repr(inp[1]), inp[6], repr(inp[7]))
+        b = buckets.setdefault(key, [])
+        if len(b) < 400 and c["nontrivial"]:
+            b.append(c)
+    npairs = 6000 if thorough else 700
+    keys = sorted(buckets)
+    for _ in range(npairs):
+        b = buckets[rng.choice(keys)]
+        if len(b) < 2:
+            continue
+        c1, c2 = rng.sample(b, 2)
+        i1, i2 = c1["input"], c2["input"]
+        if rng.random() < 0.5:       # shift the second peer so that the lifetimes interleave differently
+            shift = rng.choice([1, 2, 3, 5])
+            i2 = list(i2)
+            i2[3] = [it[:-1] + [it[-1] + shift] for it in i2[3]]
+        (a1, b1), (a2, b2) = _span(i1[3]), _span(i2[3])
+        overlap = a1 <= b2 and a2 <= b1
+        tags = ["two-connections", "overlapping-lifetimes" if overlap else "disjoint-lifetimes"] + \
+               [t for t in c1["tags"] if t in ("buffered", "copying", "lf", "crlf", "fixed2")]
+        yield dict(input=[100, i1, i2], tags=tags, nontrivial=True)
+
+
 # ---------------------------------------------------------------- the property, stated on the implementation
 
 def oracle(inp):
+    if inp[0] == 100:
+        both = run_impl(inp)
+        for i, ci in enumerate(inp[1:3]):
+            fail = _check(ci, both[i])
+            if fail:
+                return f"connection {i} (served concurrently): {fail}"
+            alone = run_impl(ci)
+            if alone != both[i]:
+                return (f"connection {i} behaves differently when another connection is served concurrently: "
+                        f"{both[i]} vs alone {alone}")
+        return None
+    return _check(inp, run_impl(inp))
+
+
+def _check(inp, out):
     kind, cfg, _dec, peer, acts, oc, bufsize, impl = inp[:8]
     stream = b""
     for it in peer:
@@ -423,7 +500,7 @@ def oracle(inp):
         stream += it[1]
     expected, _left = sc.spec_events_py(kind, cfg, impl, stream)
     exp = [[0, e[1]] if e[0] == 0 else [1, 1] for e in expected]
-    log, wire, outcome, closed, _left_items, _now = run_impl(inp)
+    log, wire, outcome, closed, _left_items, _now = out
     got = []
     for ev in log:
         if ev[0] == 2:
@@ -455,6 +532,14 @@ def signature(inp, failure):
 
 
 def shrink(inp):
+    if inp[0] == 100:
+        yield inp[1]
+        yield inp[2]
+        for cand in shrink(inp[1]):
+            yield [100, cand, inp[2]]
+        for cand in shrink(inp[2]):
+            yield [100, inp[1], cand]
+        return
     kind, cfg, dec, peer, acts, oc, bufsize, impl = inp[:8]
     for i in range(len(acts)):
         yield [kind, cfg, dec, peer, acts[:i] + acts[i + 1:], oc, bufsize, impl]
